@@ -230,7 +230,8 @@ static void one(Case& cs) {
 #if C13_G == 4
 // level 1: n 0..4 x kinds; gemv forms: A kind x x kind x y kind x m,n 0..3; gemm operator forms: plain operands, general sizes; trsm operator forms
 static long n_l1() { return 5L * 4 * 4; } static long n_gemv() { return 4L * 4 * 4 * 4 * 4; } static long n_gemm() { return 4L * 4 * 4 * 2 * 2 * 2; } static long n_trsm() { return 4L * 4 * 3 * 3 * 2 * 2; }
-static long ncases() { return n_l1() + n_gemv() + n_gemm() + n_trsm(); }
+static long n_herk() { return 4L * 4 * 3 * 3; }
+static long ncases() { return n_l1() + n_gemv() + n_gemm() + n_trsm() + n_herk(); }
 static void one(Case& cs) {
 	L k = cs.k; auto take = [&](L n) { L r = k % n; k /= n; return r; };
 	if(cs.k < n_l1()) {
@@ -321,6 +322,25 @@ static void one(Case& cs) {
 #endif
 	}
 	k -= n_gemm();
+	if(k >= n_trsm()) {  // herk convenience forms: both triangles / returned array
+		k -= n_trsm(); int const ka = int(take(4)), kc = int(take(4)); L const n = 1 + take(3), kk = 1 + take(3);
+		std::string const lay = std::string(MK[ka]) + "->" + MK[kc]; bool const deg = (n <= 1 || kk <= 1); char const* opn0 = CPLX ? "herk" : "herk(real)";
+		describe(std::string("herk-forms ") + TN + " " + lay + " n,k=" + std::to_string(n) + "," + std::to_string(kk)); sig_mix("herkf"); sig_mix(lay.c_str()); sig_mix(std::uint64_t(n * 4 + kk)); nontrivial();
+		auto run = [&](char const* opn, R ca, auto&& act) {
+			Buf<T> RA, RC; auto&& A = mkm(RA, ka, n, kk, POISON); auto&& C = mkm(RC, kc, n, n, OUTFILL); for(L i = 0; i < n; ++i) for(L j = 0; j < kk; ++j) A[i][j] = val(i, j, 1);
+			std::vector<T> ref(static_cast<std::size_t>(n * n), T{}); for(L i = 0; i < n; ++i) for(L j = 0; j < n; ++j) { T s2{}; for(L q = 0; q < kk; ++q) s2 += T(A[i][q]) * conj_(T(A[j][q])); ref[std::size_t(i * n + j)] = T(ca) * s2; }
+			auto sa = RA.s; std::string const key = std::string("C13:") + opn0 + ":" + TN + ":" + lay + ":" + (deg ? "degenerate" : "general"); op((std::string(opn) + ":" + lay).c_str());
+			Outcome o = classify([&] { act(A, C); }, [&]() -> Outcome { bool ok = true; for(L i = 0; i < n; ++i) for(L j = 0; j < n; ++j) ok &= eq(C[i][j], ref[std::size_t(i * n + j)]);
+				for(L i = 0; i < n; ++i) for(L j = 0; j < n; ++j) C[i][j] = OUTFILL; long stray = 0; for(auto const& e : RC.s) stray += !(e == OUTFILL);
+				if(stray) return {"oob-write", "elements outside C were written"}; if(!(RA.s == sa)) return {"input-modified", "A was modified"};
+				if(!ok) return {"wrong", std::string(opn) + " differs from alpha*A*A^H on the full matrix, n,k=" + std::to_string(n) + "," + std::to_string(kk)}; return {"ok", ""}; });
+			count(std::string("op:") + opn + ":" + o.sym); report(key, o); };
+		run("herk(a,A,C)", R(2), [&](auto& A, auto& C) { blas::herk(R(2), A, std::move(C)); });
+		run("herk(A,C)", R(1), [&](auto& A, auto& C) { blas::herk(A, std::move(C)); });
+		run("array=herk(a,A)", R(2), [&](auto& A, auto& C) { multi::array<T, 2> W = blas::herk(R(2), A); C = W; });
+		run("array=herk(A)", R(1), [&](auto& A, auto& C) { multi::array<T, 2> W = blas::herk(A); C = W; });
+		return;
+	}
 	{	// trsm operator forms:  B |= U(A)  solves A X = B (left),  B /= U(A)  solves X A = B (right)
 		int const ka = int(take(4)), kc = int(take(4)); L const n = 1 + take(3), kk = 1 + take(3); int const uplo = int(take(2)), right = int(take(2));
 		std::string const lay = std::string(MK[ka]) + "->" + MK[kc]; std::string const szs = szc(n) + szc(kk); bool const deg = (n <= 1 || kk <= 1);
